@@ -153,6 +153,15 @@ def schedules(quick):
         last_model_save = [st[1] for st in steps if st[1] in ("model", "invalid")]
         if last_model_save and last_model_save[-1] == "invalid":      # the final contents must be valid: what an invalid final state should produce is not stated
             steps.append((r.choice(gaps), "model", 10 * i + 9, "inplace"))
+        # a script must change something: deleting a file that was never added is not a save
+        added, effective = False, False
+        for st in steps:
+            if st[1] == "add-file":
+                added = True
+            if st[1] not in ("delete-file", "manifest-restore") or (st[1] == "delete-file" and added):
+                effective = True
+        if not effective:
+            steps.append((r.choice(gaps), "model", 10 * i + 8, "inplace"))
         out.append(("timed-%d" % i, "", steps))
     forced = [
         ("forced-validated2-overtaken", "regen.validated#2=1200", [(0, "model", 1, "inplace"), (150, "model", 2, "inplace")]),
